@@ -1,6 +1,7 @@
 package meta
 
 import (
+	"bytes"
 	"errors"
 	"fmt"
 
@@ -265,7 +266,11 @@ func handleObjectWithAssociation(metaBkt *bbolt.Bucket, diff *CountersDiff, curr
 			// Garbage mark should be put irrespective of errors,
 			// especially if the error is SplitInfo.
 			if err == nil {
-				if inGarbage(metaCursor, id) == statusAvailable {
+				// an object carrying a mark of either kind has been counted (and its
+				// payload subtracted) when the mark was written
+				garbageMark := mkGarbageKey(id)
+				k, _ := metaCursor.Seek(garbageMark)
+				if inGarbage(metaCursor, id) == statusAvailable && !bytes.Equal(k, garbageMark) {
 					inhumed++
 					// if object is stored physically, and it is regular object then update
 					// bucket with container size estimations (only once: an object that is
